@@ -188,16 +188,17 @@ def h_self_queries(env, N, r):
 
 
 def h_get_prob_forms(env, N, form):
-    """readout given as a boolean array / numpy int8 array; the same readout object used twice"""
+    """readout given as a boolean array / numpy int8 / uint8 array (the dtype of utils.binary_repr rows; unsigned
+    arithmetic wraps); the same readout object used twice"""
     M = Mods(env)
     gs, ps = sym_state(env, N)
     b = env.bits('readout', (N,))
     state = mk_state(M, env, gs, ps, 0)
     if env.symbolic:
-        from symclif.shim_numpy import S
-        arg = S(np.array([eq(x, 1) for x in b], dtype=object)) if form == 'bool' else b.copy()
+        from symclif.shim_numpy import S, as_unsigned
+        arg = S(np.array([eq(x, 1) for x in b], dtype=object)) if form == 'bool' else (as_unsigned(b) if form == 'uint8' else b.copy())
     else:
-        arg = np.array([int(x) for x in b], dtype=bool if form == 'bool' else np.int8)
+        arg = np.array([int(x) for x in b], dtype={'bool': bool, 'int8': np.int8, 'uint8': np.uint8}[form])
     tot = 0
     for s in itertools.product((0, 1), repeat=N):
         g = oarr([v for k in range(N) for v in (0, s[k])])
@@ -223,7 +224,7 @@ def jobs(tier):
         J.append(dict(harness=('c07', 'h_overlap'), params=dict(N=N, r_sigma=0, r_rho=1)))
         for r in range(N + 1):
             J.append(dict(harness=('c07', 'h_self_queries'), params=dict(N=N, r=r), timeout_s=300, cost=20))
-        for form in ('bool', 'int8'):
+        for form in ('bool', 'int8', 'uint8'):
             J.append(dict(harness=('c07', 'h_get_prob_forms'), params=dict(N=N, form=form), timeout_s=300, cost=10))
     if tier == 'thorough':
         for fix in itertools.product((0, 1), repeat=6):
